@@ -291,3 +291,18 @@ func sortInt64(xs []int64) {
 }
 
 func itoa(x int64) string { return strconv.FormatInt(x, 10) }
+
+// globalsTouched counts loads/stores of package-level variables in fn (function values and the address of globals passed on count too).
+func globalsTouched(fn *ssa.Function) int {
+	n := 0
+	for _, blk := range fn.Blocks {
+		for _, ins := range blk.Instrs {
+			for _, op := range ins.Operands(nil) {
+				if _, ok := (*op).(*ssa.Global); ok {
+					n++
+				}
+			}
+		}
+	}
+	return n
+}
